@@ -60,14 +60,70 @@ fn run_one(ops: &[Value], out: &mut Out) {
     }
 }
 
-/// vh recvbuf-replay <behaviours.ndjson> <trace-out.ndjson>
+/// the same behaviours through the crypto stream's receive side (CryptoStreamIncoming::recv_frame + CryptoStreamReader):
+/// only what that API shows is recorded (bytes read, Pending = 0 bytes)
+fn run_one_crypto(ops: &[Value], out: &mut Out) {
+    use qbase::frame::{CryptoFrame, io::ReceiveFrame};
+    use qbase::varint::VarInt;
+    use std::task::{Context, Poll};
+    out.emit(&json!({"ev": "reset"}));
+    let cs = qrecovery::crypto::CryptoStream::new(Default::default());
+    let incoming = cs.incoming();
+    let mut reader = cs.reader();
+    let mut nread = 0u64;
+    let mut cx = Context::from_waker(futures::task::noop_waker_ref());
+    for op in ops {
+        let a = op.as_array().unwrap();
+        let arg = |i: usize| a[i].as_u64().unwrap();
+        let r = guarded(|| match a[0].as_str().unwrap() {
+            "v" => {
+                let (off, len) = (arg(1), arg(2));
+                if len == 0 {
+                    return None; // the frame codec has no empty CRYPTO frame in practice; RecvBuf itself is covered directly
+                }
+                let frame = CryptoFrame::new(VarInt::from_u64(off).unwrap(), VarInt::from_u64(len).unwrap());
+                let res = incoming.recv_frame((frame, Bytes::from(content(off..off + len))));
+                Some(json!({"ev": "crecv", "off": off, "len": len, "ok": res.is_ok()}))
+            }
+            "r" => {
+                let k = arg(1) as usize;
+                let mut dst = vec![0u8; k];
+                let mut rb = tokio::io::ReadBuf::new(&mut dst);
+                let n = match tokio::io::AsyncRead::poll_read(std::pin::Pin::new(&mut reader), &mut cx, &mut rb) {
+                    Poll::Ready(Ok(())) => rb.filled().len(),
+                    Poll::Ready(Err(_)) => 0,
+                    Poll::Pending => 0,
+                };
+                let ok = dst[..n] == content(nread..nread + n as u64)[..];
+                nread += n as u64;
+                Some(json!({"ev": "cread", "k": k, "n": n, "data_ok": ok}))
+            }
+            _ => None,
+        });
+        match r {
+            Ok(Some(ev)) => out.emit(&ev),
+            Ok(None) => {}
+            Err(msg) => {
+                out.emit(&json!({"ev": "panic", "op": op, "msg": msg}));
+                break;
+            }
+        }
+    }
+}
+
+/// vh recvbuf-replay <behaviours.ndjson> <trace-out.ndjson> [crypto]
 pub fn replay(args: &[String]) -> i32 {
     quiet_panics();
     let mut out = Out::create(&args[1]);
+    let crypto = args.get(2).map(|s| s == "crypto").unwrap_or(false);
     let mut n = 0u64;
     for line in read_lines(&args[0]) {
         let ops: Vec<Value> = serde_json::from_str(&line).expect("behaviour json");
-        run_one(&ops, &mut out);
+        if crypto {
+            run_one_crypto(&ops, &mut out);
+        } else {
+            run_one(&ops, &mut out);
+        }
         n += 1;
     }
     out.finish();
